@@ -197,8 +197,6 @@ class C17(Suite):
     imports = "From RV Require Import Namespace.Model."
     case_ty = "case"
     obs_ty = "obs"
-    kf = "kf"
-    kf_ids = {1: "F6b", 2: "F6c"}
     corr = ("NamespaceManager.bind/_store_bind/compute_qname/compute_qname_strict/qname/curie/normalizeUri/"
             "expand_curie/reset, split_uri, is_ncname, insert_trie/insert_strie/get_longest_namespace, "
             "Memory.bind/prefix/namespace/namespaces (and SimpleMemory)")
@@ -367,8 +365,6 @@ class C17Conf(Suite):
     model = "conf_model"
     oeq = "conf_eqb"
     spec = "conf_spec"
-    kf = "conf_kf"
-    kf_ids = {3: "F6d"}
     corr = "Graph.bind/parse/serialize, NamespaceManager with bind_namespaces=rdflib|core|none (conformance only)"
     quick_n = 80
     thorough_n = 2000
@@ -386,8 +382,7 @@ class C17Conf(Suite):
             r = rng.random()
             u = rng.choice(iris)
             if r < 0.25:
-                # override=False with replace=True is the F6b region: not generated here
-                fl = rng.choice([(True, False), (True, False), (False, False), (True, True)])
+                fl = rng.choice([(True, False), (True, False), (False, False), (True, True), (False, True)])
                 ops.append(["bind", rng.choice(pfx), rng.choice(nss), fl[0], fl[1], True])
             elif r < 0.40:
                 ops.append(["parse", rng.choice(sorted(DOCS))])
@@ -451,10 +446,8 @@ class C17Conf(Suite):
     def coq_case(self, case):
         ops = []
         for op in self.expanded_ops(case):
-            if op[0] == "parse":
-                ops.append("OOther 1%N" if DOCS[op[1]][0] == "json-ld" else "OOther 0%N")
-            elif op[0] in ("ser", "add"):
-                ops.append("OOther 0%N")
+            if op[0] in ("parse", "ser", "add"):
+                ops.append("OOther")
             else:
                 ops.append(c_op(op))
         return "{| c_cats := []; c_ops := " + clist(ops) + " |}"
